@@ -3,7 +3,7 @@
 EXTENDS RGBLed, Json, IOUtils
 
 Traces == JsonDeserialize(IOEnv.TRACE_FILE)     \* [{id, side, ev: [{act, a, col, on, wave, res}...]}...]
-VARIABLES tid, l, bad
+VARIABLES tid, l, bad, known
 T == Traces[tid]
 InvDiff(c, o, w) ==
     IF ~(\A k \in 1..3 : Comp(c[k])) THEN "inv-channel-range"
@@ -11,19 +11,21 @@ InvDiff(c, o, w) ==
     ELSE IF ~LevelsOK(w) THEN "inv-unclamped-level"
     ELSE IF c # WLast(w) THEN "inv-getter-not-tracking-pin"
     ELSE ""
-TInit == /\ tid \in 1..Len(Traces) /\ l = 1 /\ bad = ""
+TInit == /\ tid \in 1..Len(Traces) /\ l = 1 /\ bad = "" /\ known = {}
          /\ side = Traces[tid].side /\ col = Black /\ on = FALSE
          /\ wave = WStart(Black) /\ res = "init" /\ last = NoCall
 TNext == /\ bad = "" /\ l <= Len(T.ev)
          /\ LET e == T.ev[l]
                 c == Call(e.act, e.a)
                 t == St(e.col, e.on)
-                d == IF e.act = "init" THEN (IF t = St(Black, FALSE) THEN "" ELSE "initial-state")
-                     ELSE StepDiff(side, Cur, c, t, e.wave, e.res)
+                d0 == IF e.act = "init" THEN (IF t = St(Black, FALSE) THEN "" ELSE "initial-state")
+                      ELSE StepDiff(side, Cur, c, t, e.wave, e.res)
+                kn == d0 # "" /\ side = "fw" /\ e.act # "init" /\ KnownHalfStep(Cur, c, t, e.wave, e.res)
+                d == IF kn THEN "" ELSE d0
             IN /\ col' = e.col /\ on' = e.on /\ wave' = e.wave /\ res' = e.res /\ last' = c
+               /\ known' = IF kn THEN known \cup {"rgb-fade-half-step"} ELSE known
                /\ bad' = IF d # "" THEN d ELSE InvDiff(e.col, e.on, e.wave)
          /\ l' = l + 1 /\ UNCHANGED <<tid, side>>
 Done == bad # "" \/ l > Len(T.ev)
-Verdict == Done => PrintT(ToJson([id |-> T.id, ok |-> bad = "", l |-> l - 1, clause |-> bad,
-                                  half |-> (l > 1 /\ bad # "" /\ last.act = "fade" /\ Valid(last) /\ HalfStep(wave[1].lv, Tri(last.a), last.a[5]))]))
+Verdict == Done => PrintT(ToJson([id |-> T.id, ok |-> bad = "", l |-> l - 1, clause |-> bad, known |-> known]))
 =============================================================================
